@@ -82,6 +82,14 @@ func (w *writer) NeedsRollover(rollover int64) bool {
 }
 
 func (w *writer) Publish(msgs []message.Message) (int64, error) {
+	// refuse the whole batch before anything of it reaches the files: the messages written
+	// ahead of a refused one would stay there without their offsets being taken
+	for i := range msgs {
+		if err := message.CheckSize(msgs[i]); err != nil {
+			return OffsetInvalid, err
+		}
+	}
+
 	nextOffset, indexTime := w.index.getNext()
 
 	items := make([]index.Item, len(msgs))
